@@ -1,12 +1,14 @@
 mod common;
 mod rawdb_engine;
 mod vec_engine;
+mod compute_engine;
 
 fn main() {
     let args = common::Args(std::env::args().skip(1).collect());
     let code = match args.0.first().map(|s| s.as_str()) {
         Some("rawdb") => rawdb_engine::main(&args),
         Some("vec") => vec_engine::main(&args),
+        Some("compute") => compute_engine::main(&args),
         _ => {
             eprintln!("usage: harness <engine> …");
             2
